@@ -2,7 +2,7 @@
 Driver for C01: one `Uniflow.Writer.Step` per line, answered with what the step shows.
 
   link r | unlink r | write v | ans r n | ans r e k | ans r v k | pop r <n | e k | v k> | deliver r k |
-  closer r | drop r | closew
+  closer r | drop r | closew | writeh v r1 r2 …
 
   output:  <ret>{ d<r>:<v>}{ | <resp>}
     ret  ::= t | f | n<k> | u | skip | panic<k>
@@ -65,15 +65,28 @@ def showOut (o : Out) : String :=
   showRet o.ret ++ String.join (o.deliv.map fun p => s!" d{p.1}:{p.2}")
     ++ String.join (o.emits.map fun e => " | " ++ showResp e)
 
+/-- `writeh v r1 r2 …`: a `Write` whose outbound hook closes the readers r1 r2 … (none: the hook does nothing).
+Answered with `<out> h<hook calls> s<goroutines spawned by the hook's closes>`. -/
+def parseX : List String → Option XStep
+  | "writeh" :: v :: rs =>
+    match v.toNat?, rs.mapM (·.toNat?) with
+    | some v, some rs => some (.writeH v rs)
+    | _, _ => none
+  | toks => (parseStep toks).map XStep.base
+
+def showX : XStep → XOut → String
+  | .writeH _ _, o => showOut o.out ++ s!" h{o.shown} s{o.spawned}"
+  | .base _, o => showOut o.out
+
 def stepM (m : W) (toks : List String) : W × String :=
-  match parseStep toks with
+  match parseX toks with
   | none => (m, "bad-op")
-  | some st => let p := step m st; (p.1, showOut p.2)
+  | some st => let p := xstep m st; (p.1, showX st p.2)
 
 def stepS (s : Uniflow.WriterSpec.S) (toks : List String) : Uniflow.WriterSpec.S × String :=
-  match parseStep toks with
+  match parseX toks with
   | none => (s, "bad-op")
-  | some st => let p := Uniflow.WriterSpec.step s st; (p.1, showOut p.2)
+  | some st => let p := Uniflow.WriterSpec.xstep s st; (p.1, showX st p.2)
 
 def handler : Handler := { σ := W, init := W.init, step := stepM }
 def handlerSpec : Handler := { σ := Uniflow.WriterSpec.S, init := Uniflow.WriterSpec.S.init, step := stepS }
